@@ -117,33 +117,28 @@ Proof.
   - split; [|reflexivity]. repeat split; try reflexivity. eexists. split; reflexivity.
 Qed.
 
-(* class 3: final {Inner a; long b}; the writer's Inner = appendable {long x; long y}, the
-   reader's Inner = appendable {long x}: b is read from y *)
+(* former classes 3 and 4, repaired in /repo (e71c8f0, 1abc6cd): the regression inputs now decode
+   into the projection.  3: final {Inner a; long b} with the writer's Inner = appendable
+   {long x; long y} and the reader's Inner = appendable {long x} (and the other way round);
+   4: member ids that agree modulo 65536 *)
 Definition w3_in1 : ty := TStruct Appendable [(mi 0, TPrim PI32)].
 Definition w3_in2 : ty := TStruct Appendable [(mi 0, TPrim PI32); (mi 1, TPrim PI32)].
 Definition w3_t1 : adesc := mkAD Final 1 [am 0 0 (ANested w3_in1); am 1 1 (APrim PI32)].
 Definition w3_t2 : adesc := mkAD Final 1 [am 0 0 (ANested w3_in2); am 1 1 (APrim PI32)].
 Definition w3_x : dyn := [(0, VData [(0, VP KI32 5); (1, VP KI32 6)]); (1, VP KI32 77)].
-Lemma witness_nested_dheader :
-  refuted V2 w3_t1 w3_t2 w3_x /\
-  decode (ty_of w3_t1) [0;7;0;0; 8;0;0;0; 5;0;0;0; 6;0;0;0; 77;0;0;0]
-    = Ok (VData [(0, VData [(0, VP KI32 5)]); (1, VP KI32 6)]) /\
-  C39_known (mkC39 (Ev V2 LE tce_default w3_t1 w3_t2 (VData w3_x)) (OAs (Ok true))) = 3%N.
-Proof. split; [|split; reflexivity]. repeat split; try reflexivity. eexists. split; reflexivity. Qed.
-
-(* class 4: member ids are compared modulo 65536 by the XCDR2 parameter search *)
+Definition w3_y : dyn := [(0, VData [(0, VP KI32 5)]); (1, VP KI32 77)].
 Definition w4_t1 : adesc := mkAD Mutable 1 [am 1 1 (APrim PI32); am 65537 2 (APrim PI32)].
 Definition w4_t2 : adesc := mkAD Mutable 1 [am 65537 2 (APrim PI32)].
 Definition w4_x : dyn := [(65537, VP KI32 9)].
-Lemma witness_member_id_u16 :
+Lemma repaired_decoding :
+  (exists bs, encode V2 LE (ty_of w3_t2) (VData w3_x) = Ok bs /\
+              decode (ty_of w3_t1) bs = Ok (VData w3_y) /\ projects_n w3_t1 w3_x w3_y = true) /\
+  (exists bs, encode V2 LE (ty_of w3_t1) (VData w3_y) = Ok bs /\
+              decode (ty_of w3_t2) bs = Ok (VData w3_y) /\ projects_n w3_t2 w3_y w3_y = true) /\
   struct_assignable tce_default (cto_of w4_t1) (cto_of w4_t2) = Ok true /\
-  flat_desc w4_t1 = true /\ flat_desc w4_t2 = true /\ ids_u16 w4_t1 = false /\
-  refuted V2 w4_t1 w4_t2 w4_x /\
-  C39_known (mkC39 (Ev V2 LE tce_default w4_t1 w4_t2 (VData w4_x)) (OAs (Ok true))) = 4%N.
-Proof.
-  split; [reflexivity|]. split; [reflexivity|]. split; [reflexivity|]. split; [reflexivity|].
-  split; [|reflexivity]. repeat split; try reflexivity. eexists. split; reflexivity.
-Qed.
+  (exists bs, encode V2 LE (ty_of w4_t2) (VData w4_x) = Ok bs /\
+              decode (ty_of w4_t1) bs = Ok (VData w4_x) /\ projects w4_t1 w4_x w4_x = true).
+Proof. repeat split; try reflexivity; eexists; repeat split; reflexivity. Qed.
 
 (* former class 5 (todo!() on TkNone / maps / SCC / extended identifiers), repaired in /repo
    (abb552f): such a member type is simply not assignable; a type object that has one is still
@@ -157,15 +152,31 @@ Lemma unsupported_rejected :
   struct_rules tce_default (mkST 1 1 [mkSM 0 1 0 TkNone]) (mkST 1 1 [mkSM 0 1 0 TkNone]) = Ok false.
 Proof. repeat split; reflexivity. Qed.
 
-(* class 6: appendable {@optional long a} := appendable {long a} *)
+(* former class 6, repaired in /repo (05c4a3c): a member optional on one side only is rejected
+   for FINAL / APPENDABLE types (MUTABLE types look members up by id: still accepted) *)
 Definition w6_t1 : adesc := mkAD Appendable 1 [mkAM (mkM 0 true false false false []) 0 false (APrim PI32)].
 Definition w6_t2 : adesc := mkAD Appendable 1 [am 0 0 (APrim PI32)].
-Definition w6_x : dyn := [(0, VP KI32 2)].
-Lemma witness_optional_mismatch :
-  struct_assignable tce_default (cto_of w6_t1) (cto_of w6_t2) = Ok true /\
-  refuted V2 w6_t1 w6_t2 w6_x /\
-  C39_known (mkC39 (Ev V2 LE tce_default w6_t1 w6_t2 (VData w6_x)) (OAs (Ok true))) = 6%N.
-Proof. split; [reflexivity|]. split; [|reflexivity]. repeat split; try reflexivity. eexists. split; reflexivity. Qed.
+Lemma optional_mismatch_rejected :
+  struct_assignable tce_default (cto_of w6_t1) (cto_of w6_t2) = Ok false /\
+  struct_assignable tce_default (cto_of w6_t2) (cto_of w6_t1) = Ok false /\
+  struct_assignable tce_default (cto_of (mkAD Mutable 1 (ad_members w6_t1)))
+                                (cto_of (mkAD Mutable 1 (ad_members w6_t2))) = Ok true.
+Proof. repeat split; reflexivity. Qed.
+
+(* on the flat family the nested projection used by the oracle is `projects` *)
+Lemma projects_n_flat : forall t1 xv d, flat_desc t1 = true -> projects_n t1 xv d = projects t1 xv d.
+Proof.
+  intros t1 xv d Hf. unfold projects_n, projects. f_equal.
+  unfold flat_desc in Hf. apply andb_prop in Hf as [Hf _]. apply andb_prop in Hf as [Hf _].
+  rewrite forallb_forall in Hf.
+  assert (H : forall l, incl l (ad_members t1) -> forallb (member_agrees_n xv d) l = forallb (member_agrees xv d) l).
+  { induction l as [|m r IH]; intros Hi; [reflexivity|]. cbn [forallb].
+    rewrite IH by (intros x Hx; apply Hi; now right). f_equal.
+    specialize (Hf m (Hi m (or_introl eq_refl))). apply andb_prop in Hf as [Hfl _].
+    unfold member_agrees_n, member_agrees.
+    destruct (am_ty m) as [p| | |]; try discriminate; reflexivity. }
+  apply H. apply incl_refl.
+Qed.
 
 (* class 7: the typed sample of a reader whose type was extended (derive types A2 := A1) *)
 Definition w7_t1 : adesc := mkAD Appendable 2 [am 0 0 (APrim PI32); am 1 1 (APrim PI32)].
@@ -220,7 +231,7 @@ Lemma ex_nonvacuous :
   wt (ty_of ex_a2) (VData ex_ax) = true /\
   (exists bs, encode V2 LE (ty_of ex_a2) (VData ex_ax) = Ok bs /\
               decode (ty_of ex_a1) bs = Ok (VData [(0, VP KU8 7); (1, VStr [104; 105])])) /\
-  flat_desc ex_m1 = true /\ flat_desc ex_m2 = true /\ ids_u16 ex_m1 = true /\ ids_u16 ex_m2 = true /\
+  flat_desc ex_m1 = true /\ flat_desc ex_m2 = true /\
   struct_assignable tce_default (cto_of ex_m1) (cto_of ex_m2) = Ok true /\
   wt (ty_of ex_m2) (VData ex_mx) = true /\ small_dyn ex_mx = true /\
   (exists bs, encode V2 LE (ty_of ex_m2) (VData ex_mx) = Ok bs /\
